@@ -514,7 +514,7 @@ Qed.
 Inductive reachDB : vam -> option dfrun -> (Z -> Z) -> Prop :=
 | reachDB_new nslots v : vam_new c nslots = OK v -> Z.of_nat nslots <= 4194304 -> reachDB v None (fun _ => 0)
 | reachDB_step v run G o f v' r calls :
-    reachDB v run G -> drun_idle run -> op_ok v o -> op_dom o -> op_bal G o -> step c v o f = (v', r, calls) -> r <> RPanic -> r <> RStuck ->
+    reachDB v run G -> op_avoids run o -> op_ok v o -> op_dom o -> op_bal G o -> step c v o f = (v', r, calls) -> r <> RPanic -> r <> RStuck ->
     reachDB v' run (gstep G o r)
 | reachDB_dstep v run G o f v' run' r calls dr :
     reachDB v run G -> dop_ok v run o -> dop_bal G run o -> dstep c v run o f = (v', run', r, calls, dr) -> r <> RPanic -> r <> RStuck ->
@@ -533,7 +533,12 @@ Proof.
   - split; [eapply (vam_new_BInv c); eauto|exact I].
   - pose proof (reachDB_reachDA _ _ _ R) as RA. destruct (reachDA_inv c Ha v run RA) as (HI & _).
     pose proof (step_preservesB c Ha G v o f HI (reachDA_map c Ha v run RA) (proj1 IH) Hok Hd Hbal) as P. rewrite Hs in P.
-    split; [apply P; auto|]. apply idle_tmps_unmapped. exact Hidle.
+    split; [apply P; auto|]. destruct IH as (_ & Htm). destruct run as [rn|]; [|exact I]. intros i dc m Hn Hm.
+    assert (Hpend : In (tmp_of m) (pending_slots (Some rn))).
+    { eapply in_pending; [exact Hn|]. unfold mv_slots. apply in_app_iff. right. apply in_map. exact Hm. }
+    assert (Eg : gstep G o r (tmp_of m) = G (tmp_of m)).
+    { unfold gstep. destruct o; try reflexivity; destruct r; try reflexivity; apply upd_other; intros E; apply (Hidle (tmp_of m)); cbn; auto. }
+    rewrite Eg. eapply Htm; eauto.
   - pose proof (reachDB_reachDA _ _ _ R) as RA. destruct (reachDA_inv c Ha v run RA) as (HI & Hr).
     pose proof (dstep_preservesB G v run o f HI (reachDA_map c Ha v run RA) (proj1 IH) Hr Hok (proj2 IH) Hbal) as P. rewrite Hs in P. apply P; auto.
 Qed.
